@@ -59,7 +59,7 @@ def parseAct (ts : List String) : Option (Act × String) :=
 def sortNat (l : List Nat) : List Nat := l.mergeSort (· ≤ ·)
 
 /-- timers / ticks of live nodes that should have fired before `now` -/
-def overdue (n : Nat) (s : Sys FDet) (now : Nat) : List String :=
+def overdue {D : Type} [Inhabited D] [Detector D] (n : Nat) (s : Sys D) (now : Nat) : List String :=
   (List.range n).flatMap fun a =>
     if s.isCrashed a then [] else
     let nd := s.node a
